@@ -58,6 +58,7 @@ type State struct {
 	alloc   *Term
 	defers  []*deferred
 	pending []*pendingHavoc
+	addr    map[types.Object]*Term // locals whose address was taken (moved to the heap)
 }
 
 // pendingHavoc: a havoc event that also applies to heap arrays not yet
@@ -123,23 +124,23 @@ type Exec struct {
 	specPos       token.Pos
 	ghostDepth    int
 	quantDepth    int
-	addrTaken     map[types.Object]*Term
-	guardMarks    []int
-	useStrCat     bool
-	useStrOf      bool
-	useHashable   bool
-	extraHavoc    []types.Object
-	noGuard       int
-	skolem        bool
-	initKeys      map[string]bool
-	havocId       int
-	anchorHits    map[string]int
-	loopTextHits  map[string]int
-	rawOuts       []*State
-	guardCount    int
-	touched       []touchedPtr
-	pendingHavoc  []string
-	guardHook     func(st *State, structT types.Type, field string, ptr *Term, at ast.Node, write bool)
+
+	guardMarks   []int
+	useStrCat    bool
+	useStrOf     bool
+	useHashable  bool
+	extraHavoc   []types.Object
+	noGuard      int
+	skolem       bool
+	initKeys     map[string]bool
+	havocId      int
+	anchorHits   map[string]int
+	loopTextHits map[string]int
+	rawOuts      []*State
+	guardCount   int
+	touched      []touchedPtr
+	pendingHavoc []string
+	guardHook    func(st *State, structT types.Type, field string, ptr *Term, at ast.Node, write bool)
 }
 
 func (x *Exec) frame() *fnFrame { return x.frames[len(x.frames)-1] }
@@ -165,6 +166,10 @@ func (st *State) clone() *State {
 	}
 	n.defers = append([]*deferred{}, st.defers...)
 	n.pending = append([]*pendingHavoc{}, st.pending...)
+	n.addr = make(map[types.Object]*Term, len(st.addr))
+	for k, v := range st.addr {
+		n.addr[k] = v
+	}
 	return n
 }
 
@@ -302,6 +307,25 @@ func (x *Exec) assumeWellFormed(st *State, v *Value) {
 		return
 	}
 	switch kindOf(v.T) {
+	case kInt, kTime:
+		// mode int: mathematical integers carry their machine range
+		t := v.L[""]
+		if t == nil || t.Sort.Kind != SInt || t.IsConst() {
+			return
+		}
+		w, signed := 64, true
+		if kindOf(v.T) == kInt {
+			w, signed = intInfo(v.T)
+		}
+		var lo, hi *big.Int
+		if signed {
+			lo = new(big.Int).Neg(new(big.Int).Lsh(big.NewInt(1), uint(w-1)))
+			hi = new(big.Int).Sub(new(big.Int).Lsh(big.NewInt(1), uint(w-1)), big.NewInt(1))
+		} else {
+			lo = big.NewInt(0)
+			hi = new(big.Int).Sub(new(big.Int).Lsh(big.NewInt(1), uint(w)), big.NewInt(1))
+		}
+		x.assume(st, x.b.And(x.b.Le(x.b.IntConst(lo), t, true), x.b.Le(t, x.b.IntConst(hi), true)))
 	case kRef:
 		t := v.L[""]
 		if t.IsConst() {
@@ -499,6 +523,19 @@ func (x *Exec) merge2(a, c *State) *State {
 		}
 	}
 	n.alloc = x.b.Ite(ca, a.alloc, c.alloc)
+	n.addr = map[types.Object]*Term{}
+	for k, v := range a.addr {
+		if w, ok := c.addr[k]; ok {
+			n.addr[k] = x.b.Ite(ca, v, w)
+		} else {
+			n.addr[k] = v
+		}
+	}
+	for k, w := range c.addr {
+		if _, ok := a.addr[k]; !ok {
+			n.addr[k] = w
+		}
+	}
 	n.pending = a.pending
 	if len(c.pending) > len(a.pending) {
 		n.pending = c.pending
@@ -669,7 +706,7 @@ func (x *Exec) execStmt1(st *State, s ast.Stmt) *State {
 					v := x.eval(st, vs.Values[i])
 					x.define(st, n, x.coerce(st, v, obj.Type()))
 				} else {
-					st.env[obj] = x.zeroValue(obj.Type())
+					x.setLocal(st, obj, x.zeroValue(obj.Type()))
 				}
 			}
 		}
@@ -769,7 +806,27 @@ func (x *Exec) define(st *State, id *ast.Ident, v *Value) {
 	if obj == nil {
 		return
 	}
-	st.env[obj] = x.coerce(st, v, obj.Type())
+	x.setLocal(st, obj, x.coerce(st, v, obj.Type()))
+}
+
+// setLocal stores a local variable; variables whose address is taken live in
+// a heap cell allocated at their first definition.
+func (x *Exec) setLocal(st *State, obj types.Object, v *Value) {
+	if x.eng.escapingLocals()[obj] && v.L != nil {
+		r, ok := st.addr[obj]
+		if !ok {
+			r = x.allocRef(st)
+			st.addr[obj] = r
+		}
+		if kindOf(v.T) == kStruct {
+			x.storeStruct(st, r, v.T, v)
+		} else {
+			x.storeCell(st, r, v.T, v)
+		}
+		delete(st.env, obj)
+		return
+	}
+	st.env[obj] = v
 }
 
 func (x *Exec) execAssign(st *State, s *ast.AssignStmt) {
@@ -847,7 +904,7 @@ func (x *Exec) assignTo(st *State, l ast.Expr, v *Value) {
 			return
 		}
 		if _, ok := st.env[obj]; ok || obj.Parent() != x.eng.pkg.Types.Scope() {
-			st.env[obj] = x.coerce(st, v, obj.Type())
+			x.setLocal(st, obj, x.coerce(st, v, obj.Type()))
 			return
 		}
 		// package-level variable
